@@ -10,7 +10,7 @@ def run(tier, seed):
     hc = hcommon.HandlerCheck(PROP, tier, seed)
     hc.gate()
     hc.run_corpus(lambda kind: srcprops.oracle_c08)
-    for case in srcprops.c08_cases(tier, hc.rng):
+    for case in hcommon.share(srcprops.c08_cases(tier, hc.rng)):
         if case[0] == "multi":
             _, cfg, data, sched, ack_after = case
             kind, ops, obs = srcprops.multi_nak_source_case(cfg, data, sched, ack_after)
